@@ -182,7 +182,7 @@ class Monitor:
         self._wrap(EX.TrajectoryExporter, "parse_plan", "TrajectoryExporter.parse_plan", register_result=reg_triplets)
         self._wrap(EX.TrajectoryExporter, "export", "TrajectoryExporter.export")
         self._wrap(LP.DomainParser, "parse_domain", "DomainParser.parse_domain", register_result=reg_domain, product_exempt=True)
-        self._wrap(LP.ProblemParser, "parse_problem", "ProblemParser.parse_problem", register_result=reg_domain, product_exempt=True)
+        self._wrap(LP.ProblemParser, "parse_problem", "ProblemParser.parse_problem", register_result=reg_domain)
         self._wrap(LP.TrajectoryParser, "parse_trajectory", "TrajectoryParser.parse_trajectory")
         self._wrap(LP.PDDLTokenizer, "parse", "PDDLTokenizer.parse", post=None)
         self._wrap(MA.MultiAgentDomainsConverter, "locate_domains", "MultiAgentDomainsConverter.locate_domains", register_result=reg_domain)
